@@ -190,7 +190,7 @@ theorem counted_closed (e : Env) : Closed e (Counted e) where
     intro σ r i t a _ _ _ _ h
     exact counted_set_slot h r i _ (fun t' ht => release_entry _ t t' a ht)
   book := by
-    intro σ r i t _ _ _ _ _ _ h
+    intro σ r i t _ _ _ _ _ _ _ h
     exact counted_bookSlot e σ r i t h
 
 theorem counted_init (e : Env) : Counted e (initState e) := by
